@@ -135,6 +135,48 @@ def registered_order_pass(ctx):
                         break
 
 
+def symbolic_options_pass(ctx):
+    """sw / proj / normsq applied to intermediate results inside functions registered with symbolic=True, under the options that
+    decide how coefficients are simplified and printed - codegen_symbolcls=sympy.Symbol, a simp_func that does not expand
+    (identity, factor), cse on and off: the compiled function returns what the composition of elementary operators returns"""
+    import sympy
+    from fractions import Fraction
+    from kingdon import MultiVector
+    rng = ctx.rng
+    def norm_of_sw(R, x): return (R >> x).normsq()
+    def proj_on_sw(R, x): return x @ (R >> x)
+    def sw_of_product(R, x): return (R * x) >> x
+    def normsq_of_sum(R, x): return (R + x).normsq()
+    comps = {'norm_of_sw': lambda R, x: (lambda y: y * ~y)(R * x * ~R), 'proj_on_sw': lambda R, x: (lambda y: (x | y) * ~y)(R * x * ~R),
+             'sw_of_product': lambda R, x: (R * x) * x * ~(R * x), 'normsq_of_sum': lambda R, x: (R + x) * ~(R + x)}
+    variants = [('symcls=sympy,simp=identity', {'codegen_symbolcls': sympy.Symbol, 'simp_func': (lambda v: v)}),
+                ('symcls=sympy,simp=identity,cse=False', {'codegen_symbolcls': sympy.Symbol, 'simp_func': (lambda v: v), 'cse': False}),
+                ('symcls=sympy,simp=factor', {'codegen_symbolcls': sympy.Symbol, 'simp_func': (lambda v: sympy.factor(v) if isinstance(v, sympy.Expr) else v)}),
+                ('simp=identity', {'simp_func': (lambda v: v)}), ('cse=False', {'cse': False})]
+    for sig in ([1, 1, 1], [0, 1, 1]):
+        plain = make_algebra(sig)
+        for optname, kw in variants:
+            alg = make_algebra(sig, **kw)
+            for f in (norm_of_sw, proj_on_sw, sw_of_product, normsq_of_sum):
+                kR = rng.choice([[0, 3], [0, 3, 5], [1, 2]]); kx = rng.choice([[1, 2], [1, 2, 4], [3, 5]])
+                vR = [Fraction(rng.randint(1, 5)) for _ in kR]; vx = [Fraction(rng.randint(1, 5)) for _ in kx]
+                case = {'sig': sig, 'options': optname, 'registered_symbolic': f.__name__, 'kR': kR, 'kx': kx, 'vR': [str(v) for v in vR], 'vx': [str(v) for v in vx]}
+                ctx.case(case, tag='symbolic-options')
+                try:
+                    exp = mv_to_dict(comps[f.__name__](MultiVector.fromkeysvalues(plain, tuple(kR), list(vR)), MultiVector.fromkeysvalues(plain, tuple(kx), list(vx))))
+                except ZeroDivisionError:
+                    continue
+                try:
+                    got = mv_to_dict(alg.register(symbolic=True)(f)(MultiVector.fromkeysvalues(alg, tuple(kR), list(vR)), MultiVector.fromkeysvalues(alg, tuple(kx), list(vx))))
+                except ZeroDivisionError:
+                    continue
+                except Exception as ex:
+                    ctx.violation('registered-composition', case, str(exp)[:200], 'raises ' + repr(ex)[:150], key=f'{f.__name__}:symbolic-options:raises')
+                    continue
+                if got != exp:
+                    ctx.violation('registered-composition', case, str(exp)[:250], str(got)[:250], key=f'{f.__name__}:symbolic-options')
+
+
 def run(ctx):
     ctx.rule = ('per configuration (signatures d<=2 all, d=3,4 sampled, 2DPGA/3DPGA, seeded custom bases; d=5 thorough) ordered pairs of '
                 'key tuples: all subset pairs for d<=2 (sampled in quick), grade-block and random sparse patterns above; '
@@ -217,6 +259,7 @@ def run(ctx):
     R.flush()
     highdim_pass(ctx)
     registered_order_pass(ctx)
+    symbolic_options_pass(ctx)
     # the same multivector object after in-place updates of its coefficients (stale state)
     import numpy as np
     from fractions import Fraction
